@@ -1,0 +1,104 @@
+//go:build verif
+
+// Contracts for the deductive verifier in /verif (comment-only; compiled only with -tags verif).
+
+package core
+
+// errRetry is a non-nil sentinel made by package initialisation and never reassigned; the metric
+// variables are created by initMetrics (run once by NewController before any Controller exists).
+//@ init-establishes errRetry != nil && retryable(errRetry)
+//@ global-invariant metrics.masterRuns != nil && metrics.masterCancels != nil && metrics.controllerStarts != nil && metrics.isMaster != nil && metrics.entriesFetched != nil && metrics.entriesSeen != nil && metrics.entriesStored != nil && metrics.sthTimestamp != nil && metrics.sthTreeSize != nil
+
+//@ func idHashCertData
+//@ props C20
+//@ pure
+//@ site sha256.Sum256#1 as h
+//@ requires entry != nil
+//@ ensures [identity-is-the-sha256-of-the-certificate-bytes] len(result) == 32 && (forall j int :: 0 <= j && j < 32 ==> result[j] == h.res[j])
+//@ at h assert [over-the-entrys-certificate] h.data == entry.Cert.Data
+
+//@ func idHashLeafIndex
+//@ props C20
+//@ pure
+//@ site PutUint64#1 as put
+//@ site sha256.Sum256#1 as h
+//@ ensures [identity-is-the-sha256-of-the-little-endian-index] len(result) == 32 && (forall j int :: 0 <= j && j < 32 ==> result[j] == h.res[j])
+//@ at put assert [eight-bytes-of-the-index] len(put.b) == 8 && put.v == uint64(index)
+//@ at h assert [over-those-eight-bytes] h.data == put.b
+
+//@ func NewPreorderedLogClient
+//@ props C20
+//@ pure
+//@ fresh result0
+//@ ensures [client-xor-error] (result0 != nil) != (result1 != nil)
+//@ ensures [only-pre-ordered-trees] tree == nil || tree.TreeType != trillian.TreeType_PREORDERED_LOG ==> result1 != nil
+//@ ensures [only-known-identity-functions] idFuncType != configpb.IdentityFunction_SHA256_CERT_DATA && idFuncType != configpb.IdentityFunction_SHA256_LEAF_INDEX ==> result1 != nil
+//@ ensures [client-is-bound-to-that-tree-and-backend] result1 == nil ==> result0.cli == cli && result0.treeID == tree.TreeId && result0.idFunc != nil
+
+// One destination leaf: the source bytes verbatim under the source index.
+//@ func (*PreorderedLogClient).buildLogLeaf
+//@ props C20
+//@ modifies nothing
+//@ frame-trusted the identity function is one of the two pure hash functions NewPreorderedLogClient installs
+//@ site RawLogEntryFromLeaf#1 as raw
+//@ site ToLogEntry#1 as tl
+//@ site idFunc#1 as idf
+//@ requires c != nil && c.idFunc != nil && entry != nil
+//@ fresh result0
+//@ ensures [leaf-xor-error] (result0 != nil) != (result1 != nil)
+//@ ensures [only-an-undecodable-leaf-is-refused] result1 != nil <==> raw.res1 != nil
+//@ ensures [bytes-and-index-copied-verbatim] result1 == nil ==> result0.LeafValue == entry.LeafInput && result0.ExtraData == entry.ExtraData && result0.LeafIndex == index
+//@ ensures [identity-hash-is-the-configured-function-of-index-and-entry] result1 == nil ==> idf.called && result0.LeafIdentityHash == idf.res
+//@ at raw assert [decodes-this-entry-at-this-index] raw.index == index && raw.entry == entry
+//@ at idf assert [identity-of-this-index-and-raw-entry] idf.arg0 == index && idf.arg1 == raw.res0
+
+//@ func (*PreorderedLogClient).getRoot
+//@ props C20
+//@ site GetLatestSignedLogRoot#1 as gr
+//@ site UnmarshalBinary#1 as um
+//@ requires c != nil && c.cli != nil && ctx != nil
+//@ ensures [backend-error-or-missing-root-is-an-error] gr.res1 != nil || gr.res0 == nil || after(gr, gr.res0.SignedLogRoot) == nil ==> result2 != nil
+//@ ensures [undecodable-root-is-an-error] um.called && um.res != nil ==> result2 != nil
+//@ ensures [size-and-hash-are-the-decoded-root] result2 == nil ==> um.called && um.res == nil && result0 == after(um, logRoot.TreeSize) && result1 == after(um, logRoot.RootHash)
+//@ at gr assert [root-of-this-tree] gr.in.LogId == c.treeID
+
+// The consistency gate: past a non-empty destination root only with a verified proof from the source.
+//@ func (*Controller).verifyConsistency
+//@ props C20
+//@ arith int
+//@ site GetSTHConsistency#1 as gc
+//@ site proof.VerifyConsistency#1 as vc
+//@ requires c != nil && c.ctClient != nil && c.ctClient.httpClient != nil && sth != nil && ctx != nil
+//@ ensures [empty-destination-needs-no-proof] treeSize == 0 ==> result == nil && !gc.called
+//@ ensures [non-empty-destination-passes-only-with-a-verified-proof-unless-switched-off] treeSize != 0 && !c.opts.NoConsistencyCheck ==> (result == nil <==> gc.called && gc.res1 == nil && vc.called && vc.res == nil)
+//@ at gc assert [proof-between-destination-size-and-source-sth] gc.first == treeSize && gc.second == sth.TreeSize
+//@ at vc assert [verified-against-the-destination-root-and-the-source-root] vc.size1 == treeSize && vc.size2 == sth.TreeSize && vc.proof == gc.res0 && vc.root1 == rootHash && len(vc.root2) == 32 && (forall j int :: 0 <= j && j < 32 ==> vc.root2[j] == sth.SHA256RootHash[j])
+
+// Submission of one batch: the leaves are built from the batch's entries in order under the indices
+// Start, Start+1, ..., sent to this tree in one request; a quota-exhausted reply is retried with
+// back-off, never handed back while the context lives; any other failure is returned.
+//@ func (*PreorderedLogClient).addSequencedLeaves
+//@ props C20
+//@ arith int
+//@ site buildLogLeaf#1 as bl
+//@ site Retry#1 as rt
+//@ requires c != nil && c.cli != nil && c.idFunc != nil && ctx != nil && b != nil && b.Start >= 0 && b.Start <= 4611686018427387904
+//@ loop 1 invariant c.idFunc != nil && c.cli != nil && len(leaves) == len(b.Entries) && (forall k int :: 0 <= k && k <= rangeindex ==> leaves[k] != nil && leaves[k].LeafIndex == b.Start + k && leaves[k].LeafValue == b.Entries[k].LeafInput && leaves[k].ExtraData == b.Entries[k].ExtraData)
+//@ ensures [an-unbuildable-leaf-fails-the-batch-before-anything-is-sent] bl.called && bl.res1 != nil ==> result == bl.res1 && !rt.called
+//@ ensures [quota-exhausted-replies-are-retried-not-returned] result != nil && rt.called && !ctxEnded(ctx) ==> grpcCode(result) != 8
+//@ ensures [success-means-the-backend-accepted-the-request] result == nil ==> rt.called && rt.res == nil && err == nil
+//@ at bl assert [leaf-k-is-entry-k-at-index-start-plus-k] bl.index == b.Start + (rangeindex + 1) && *bl.entry == b.Entries[rangeindex + 1]
+//@ at rt assert [one-request-with-every-leaf-of-the-batch-in-order-for-this-tree] req.LogId == c.treeID && len(req.Leaves) == len(b.Entries) && (forall k int :: 0 <= k && k < len(b.Entries) ==> req.Leaves[k] != nil && req.Leaves[k].LeafIndex == b.Start + k && req.Leaves[k].LeafValue == b.Entries[k].LeafInput && req.Leaves[k].ExtraData == b.Entries[k].ExtraData)
+
+// One attempt: the prepared request goes to the backend; only ResourceExhausted asks for a retry.
+//@ func (*PreorderedLogClient).addSequencedLeaves$1
+//@ props C20
+//@ arith int
+//@ modifies nothing
+//@ frame-trusted assigns only the captured variable err (havocked at the call of Retry)
+//@ site AddSequencedLeaves#1 as add
+//@ site status.Code#1 as sc
+//@ requires c != nil && c.cli != nil && ctx != nil && b != nil
+//@ ensures [retry-is-asked-for-exactly-on-quota-exhaustion] (result != nil <==> grpcCode(err) == 8) && (result != nil ==> result == errRetry)
+//@ ensures [a-missing-reply-is-an-error] result == nil && grpcCode(err) == 0 ==> (err == nil ==> add.res0 != nil)
+//@ at add assert [sends-the-prepared-request] add.in == &req
